@@ -39,6 +39,30 @@ def _aug(stmt, target, var):
     return pred({target: (var, "nat")}, node, ctx="term")
 
 
+def _guarded_version_write(stmt, call, target):
+    """The write of a version file in `_serialize` / `_serialize_jobs`: either the plain statement `call()` (returns None) or
+
+        try:
+            call()
+        except Exception:
+            target -= k          # roll the in-memory bump back: nothing was written
+            raise
+
+    (returns the AugAssign of the handler).  Anything else -> None is not returned but SiteError raised by the callers."""
+    if isinstance(stmt, ast.Expr) and src(stmt) == f"{call}()":
+        return None
+    ok = (isinstance(stmt, ast.Try) and not stmt.orelse and not stmt.finalbody and len(stmt.handlers) == 1
+          and _srcs(stmt.body) == [f"{call}()"])
+    if ok:
+        h = stmt.handlers[0]
+        ok = (h.type is not None and src(h.type) == "Exception" and h.name is None and len(h.body) == 2
+              and isinstance(h.body[0], ast.AugAssign) and src(h.body[0].target) == target
+              and isinstance(h.body[1], ast.Raise) and h.body[1].exc is None)
+    if not ok:
+        raise SiteError(f"write of the version file is neither `{call}()` nor the guarded form with a roll-back of {target}: {src(stmt)}")
+    return stmt.handlers[0].body[0]
+
+
 def _mismatch_if(fn, mine, what):
     """`current = self._get_X_version(); if mine != current: raise XVersionMismatch(...)`"""
     i = if_with_test(fn, lambda t: mine in t and "current" in t, what)
@@ -212,8 +236,10 @@ def _():
     body = [x for x in _srcs(ch.body) if not x.startswith("logger.")]
     want = ["self._config.version += 1", "self._serialize_config_version()", "text = self._config.json()",
             "self._config_hash = hash(text)", "self._serialize_file(self._config.json(), self._config_file)"]
-    if body != want:
+    cfg_back = _guarded_version_write(ch.body[1], "self._serialize_config_version", "self._config.version")
+    if body[:1] + body[2:] != want[:1] + want[2:]:
         raise SiteError(f"_serialize write sequence changed: {body}")
+    cfg_failed = _aug(cfg_back, "self._config.version", "v") if cfg_back is not None else "((v : Nat) : Int)"
     c_cfg = pred(HASH_ENV, ch.test)
     cfg_inc = _aug(ch.body[0], "self._config.version", "v")
     sj = _body(find_def(CL, "Cluster._serialize_jobs"))
@@ -225,8 +251,10 @@ def _():
     bodyj = [x for x in _srcs(chj.body) if not x.startswith("logger.")]
     wantj = ["self._job_status.version += 1", "self._serialize_job_status_version()", "text = self._job_status.json()",
              "self._serialize_file(text, self._job_status_file)", "self._job_status_hash = hash(text)"]
-    if bodyj != wantj:
+    js_back = _guarded_version_write(chj.body[1], "self._serialize_job_status_version", "self._job_status.version")
+    if bodyj[:1] + bodyj[2:] != wantj[:1] + wantj[2:]:
         raise SiteError(f"_serialize_jobs write sequence changed: {bodyj}")
+    js_failed = _aug(js_back, "self._job_status.version", "v") if js_back is not None else "((v : Nat) : Int)"
     c_js = pred(HASH_ENV, chj.test)
     js_inc = _aug(chj.body[0], "self._job_status.version", "v")
     for g, v, f in (("_serialize_config_version", "self._config.version", "self._config_version_file"),
@@ -242,6 +270,11 @@ def _():
             f"def jsChanged {{α : Type}} [BEq α] (cur : α) (cfgHash jsHash : Option α) : Bool :=\n  {c_js}\n\n"
             f"/-- `self._config.version += 1` -/\ndef cfgVersionBump (v : Nat) : Nat :=\n  {cfg_inc}\n\n"
             f"/-- `self._job_status.version += 1` -/\ndef jsVersionBump (v : Nat) : Nat :=\n  {js_inc}\n\n"
+            "/-- `_serialize`: the in-memory version after the write of config_version.txt RAISED, `v` the bumped version: the handler\n"
+            "    `except Exception: self._config.version -= 1; raise` rolls the bump back (`v` itself when the write is not guarded) -/\n"
+            f"def cfgVersionAfterFailedWrite (v : Nat) : Int :=\n  {cfg_failed}\n\n"
+            "/-- `_serialize_jobs`: likewise for job_status_version.txt -/\n"
+            f"def jsVersionAfterFailedWrite (v : Nat) : Int :=\n  {js_failed}\n\n"
             "/-- compare → bump → version file → data file; `_config_hash` is set in `_serialize`, `_job_status_hash` in `_serialize_jobs` -/\n"
             "def serializeShapeOk : Bool := true\n\nset_option linter.unusedVariables true")
 
@@ -519,7 +552,20 @@ def _write_events(fn):
         for st in stmts:
             if isinstance(st, (ast.FunctionDef, ast.ClassDef)):
                 raise SiteError(f"{fn.name}: nested definition")
-            if isinstance(st, (ast.While, ast.For, ast.Try)):
+            if isinstance(st, ast.Try):
+                # the guarded write of a version file (`try: write() except Exception: version -= 1; raise`): one write event of
+                # the enclosing block - the handler re-raises, so nothing after it runs when the write failed
+                for fid, call, target in (("cfgVer", "self._serialize_config_version", "self._config.version"),
+                                          ("jsVer", "self._serialize_job_status_version", "self._job_status.version")):
+                    if _srcs(st.body) == [f"{call}()"]:
+                        _guarded_version_write(st, call, target)
+                        out.append((fid, id(stmts)))
+                        break
+                else:
+                    if any(isinstance(n, ast.Call) and any(p(n) for p in _WRITE_CALLS.values()) for n in ast.walk(st)):
+                        raise SiteError(f"{fn.name}: a file write inside a try block")
+                continue
+            if isinstance(st, (ast.While, ast.For)):
                 if any(isinstance(n, ast.Call) and any(p(n) for p in _WRITE_CALLS.values()) for n in ast.walk(st)):
                     raise SiteError(f"{fn.name}: a file write inside a loop / try block")
             calls = [n for n in ast.walk(st) if isinstance(n, ast.Call)] if not isinstance(st, (ast.If, ast.With)) else \
